@@ -1167,7 +1167,8 @@ pub fn run(tape: &[u8], focus: Focus) -> Option<Outcome> {
     let balancing = pt.choose(8);
     let strategy_k = pt.choose(4);
     let fund = pt.chance(230);
-    let fund_extra = pt.choose(10).min(7 + 0) % 8;
+    // classes 0..7 as documented at the funding step; 8 and 9 put the leftover at a CBOR width border of the change coin
+    let fund_extra = pt.choose(10);
     let skip_hash = pt.chance(12);
     let collateral_route = pt.choose(5);
     let cm_variant = pt.choose(3);
@@ -1346,7 +1347,12 @@ pub fn run(tape: &[u8], focus: Focus) -> Option<Outcome> {
                 // just around "is a change output viable": min-ADA of the change output +- a little
                 6 => (asset_min + delta).saturating_sub(4_000),
                 // just around "is a separate pure-ADA change output viable" (prefer_pure_change)
-                _ => (asset_min + pure_min + delta).saturating_sub(2_000),
+                7 => (asset_min + pure_min + delta).saturating_sub(2_000),
+                // the change coin lands within a few thousand lovelace of 2^32: its encoding is one width while the fee
+                // is being estimated and may be the other in the end
+                8 => ((1u128 << 32) + delta).saturating_sub(8_000),
+                // ... or of 2^16 / 2^8 (only viable as change under a small coins-per-byte)
+                _ => ([1u128 << 16, 1 << 8, 1 << 16, 1 << 32][r.t.choose(4)] + delta / 8).saturating_sub(1_000),
             };
             let coin = (need - have + extra).min(u64::MAX as u128 / 4) as u64;
             let k = r.t.choose(6);
